@@ -11,7 +11,8 @@ from decimal import Decimal
 
 from lxml import etree
 
-DROP = {('ClockStateContainer', 'DateAndTime')}
+DROP = {('ClockStateContainer', 'DateAndTime'),            # self-updating clock time
+        ('HeaderInformationBlock', 'MessageID')}            # a fresh random id per instance by design
 
 
 def _c14n(node):
